@@ -57,6 +57,16 @@ def ref_eval(spec, ctx=None):
             if len(r.msgs) == 1:
                 return ("recovered", next(iter(r.msgs)))
             raise Ambiguous() from None
+    if kind == "catchthen":
+        v = ref_eval(children[0], myctx)      # the bare second demand raises what the call raises
+        return [v, v]
+    if kind == "catchany":
+        try:
+            return ref_eval(children[0], myctx)
+        except Raised as r:
+            if len(r.msgs) == 1:
+                return ("recovered", next(iter(r.msgs)))
+            raise Ambiguous() from None
     if kind == "all":
         outs = []
         for ch in children:
